@@ -394,6 +394,31 @@ pub fn native_scaled(cfg: &cgv_core::fw::RunCfg, extra: &mut cgv_core::fw::Extra
             acc.check(&format!("{tag} Vector2 angle({kk}u + 2^-{j} rot90(u), u)"), g(vv.angle(uu).0), -want, tol, inputs);
         }
     }
+    // the same configuration after normalising both vectors in the type under test (the usual
+    // way two directions reach `angle`): reference = atan2(|u x v|, u.v) of the *rounded* unit
+    // vectors, cross product and dot product evaluated in double-double
+    fn near_parallel_unit<T: BaseFloat>(tag: &str, u: [i64; 3], w: [i64; 3], kk: i64, j: i32, acc: &mut Acc, inputs: &dyn Fn() -> serde_json::Value) {
+        use cgv_core::dd;
+        let eps = T::epsilon().to_f64().unwrap();
+        let f = |x: f64| T::from(x).unwrap();
+        let g = |x: T| x.to_f64().unwrap();
+        let sj = (2.0f64).powi(-j);
+        if u.iter().all(|x| *x == 0) || w.iter().all(|x| *x == 0) {
+            return;
+        }
+        let uu = Vector3::new(f(u[0] as f64), f(u[1] as f64), f(u[2] as f64)).normalize();
+        let vv = Vector3::new(f(kk as f64 * u[0] as f64 + w[0] as f64 * sj), f(kk as f64 * u[1] as f64 + w[1] as f64 * sj), f(kk as f64 * u[2] as f64 + w[2] as f64 * sj)).normalize();
+        let (a, b) = ([g(uu.x), g(uu.y), g(uu.z)], [g(vv.x), g(vv.y), g(vv.z)]);
+        let c = [
+            dd::dot(&[a[1], -a[2]], &[b[2], b[1]]).0,
+            dd::dot(&[a[2], -a[0]], &[b[0], b[2]]).0,
+            dd::dot(&[a[0], -a[1]], &[b[1], b[0]]).0,
+        ];
+        let cl = (c[0] * c[0] + c[1] * c[1] + c[2] * c[2]).sqrt();
+        let want = cl.atan2(dd::dot(&a, &b).0);
+        acc.check(&format!("{tag} Vector3 angle(normalize(u), normalize({kk}u + 2^-{j} w))"), g(uu.angle(vv).0), want, 256.0 * eps, inputs);
+        acc.check(&format!("{tag} Vector3 angle(n, n) of a normalised vector with itself"), g(uu.angle(uu).0), 0.0, 256.0 * eps, inputs);
+    }
     let n = if cfg.tier == Tier::Quick { 3000 } else { 200_000 };
     let mut acc = Acc::new("c11_scaled_and_nearly_parallel");
     for i in 0..n {
@@ -424,6 +449,8 @@ pub fn native_scaled(cfg: &cgv_core::fw::RunCfg, extra: &mut cgv_core::fw::Extra
             scaled::<f32>("f32", vi, ui, k32, m, &mut local, &in32);
             near_parallel::<f64>("f64", u3, w, kk, j64, &mut local, &in64);
             near_parallel::<f32>("f32", u3, w, kk, j32, &mut local, &in32);
+            near_parallel_unit::<f64>("f64", u3, w, kk, j64.min(26), &mut local, &in64);
+            near_parallel_unit::<f32>("f32", u3, w, kk, j32, &mut local, &in32);
             local
         }) {
             Ok(l) => {
@@ -442,9 +469,69 @@ pub fn native_scaled(cfg: &cgv_core::fw::RunCfg, extra: &mut cgv_core::fw::Extra
     acc.finish(extra, "f64 / exact-integer model; allowance 128 eps (relative) for lengths and directions, 256 eps rad (absolute) for the closed-form angles");
 }
 
+/// The same call spelled with method syntax on the concrete type (which picks up an inherent
+/// method if one exists for that very type) and through the trait (`InnerSpace::normalize(v)`),
+/// on f32 and f64 vectors and quaternions: both spellings must give the same bits, and the
+/// value must be the documented one.  The generic monitors above are blind to a method that
+/// exists for one concrete instantiation only, or to a trait method that differs from an
+/// inherent one of the same name.
+pub fn native_spellings(cfg: &cgv_core::fw::RunCfg, extra: &mut cgv_core::fw::Extra) {
+    use cgmath::Vector2 as V2;
+    use cgv_core::acc::Acc;
+    use cgv_core::bits::Bits;
+    use serde_json::json;
+    let n = if cfg.tier == Tier::Quick { 1500 } else { 100_000 };
+    let mut acc = Acc::new("c11_method_vs_trait_spelling");
+    for i in 0..n {
+        let mut rng = Rng::for_case(cfg.seed, "c11_native_spellings", i);
+        let raw: [f64; 8] = std::array::from_fn(|_| rng.uniform(-4.0, 4.0));
+        let m = rng.uniform(0.25, 3.0);
+        let inputs = || json!({"components": raw, "m": m, "index": i});
+        acc.case("random vectors, both spellings");
+        macro_rules! one {
+            ($T:ty, $V:ident, $name:expr, ($($k:expr),+)) => {{
+                let v = $V::new($(raw[$k] as $T),+);
+                let u = $V::new($(raw[$k + 4] as $T),+);
+                let same = |a: &dyn Fn() -> Vec<u64>, b: &dyn Fn() -> Vec<u64>| a() == b();
+                let tag = concat!($name, "<", stringify!($T), ">");
+                acc.truth(&format!("{tag}: v.normalize() differs from InnerSpace::normalize(v)"), same(&|| v.normalize().bits(), &|| InnerSpace::normalize(v).bits()), &inputs);
+                acc.truth(&format!("{tag}: v.normalize_to(m) differs from InnerSpace::normalize_to(v, m)"), same(&|| v.normalize_to(m as $T).bits(), &|| InnerSpace::normalize_to(v, m as $T).bits()), &inputs);
+                acc.truth(&format!("{tag}: v.magnitude() differs from InnerSpace::magnitude(v)"), same(&|| v.magnitude().bits(), &|| InnerSpace::magnitude(v).bits()), &inputs);
+                acc.truth(&format!("{tag}: v.magnitude2() differs from InnerSpace::magnitude2(v)"), same(&|| v.magnitude2().bits(), &|| InnerSpace::magnitude2(v).bits()), &inputs);
+                acc.truth(&format!("{tag}: v.dot(u) differs from InnerSpace::dot(v, u)"), same(&|| v.dot(u).bits(), &|| InnerSpace::dot(v, u).bits()), &inputs);
+                acc.truth(&format!("{tag}: v.angle(u) differs from InnerSpace::angle(v, u)"), same(&|| v.angle(u).0.bits(), &|| InnerSpace::angle(v, u).0.bits()), &inputs);
+                acc.truth(&format!("{tag}: v.project_on(u) differs from InnerSpace::project_on(v, u)"), same(&|| v.project_on(u).bits(), &|| InnerSpace::project_on(v, u).bits()), &inputs);
+                acc.truth(&format!("{tag}: v.distance(u) differs from MetricSpace::distance(v, u)"), same(&|| v.distance(u).bits(), &|| MetricSpace::distance(v, u).bits()), &inputs);
+                acc.truth(&format!("{tag}: v.distance2(u) differs from MetricSpace::distance2(v, u)"), same(&|| v.distance2(u).bits(), &|| MetricSpace::distance2(v, u).bits()), &inputs);
+                // value: unit length, positive multiple of v
+                let eps = <$T>::EPSILON as f64;
+                let nv = v.normalize();
+                acc.check(&format!("{tag}: |v.normalize()|"), nv.magnitude() as f64, 1.0, 64.0 * eps, &inputs);
+                acc.check(&format!("{tag}: |v.normalize_to(m)|"), v.normalize_to(m as $T).magnitude() as f64, m, 64.0 * eps * m, &inputs);
+                acc.check(&format!("{tag}: v.normalize() . v = |v|"), nv.dot(v) as f64, v.magnitude() as f64, 64.0 * eps * (v.magnitude() as f64), &inputs);
+            }};
+        }
+        one!(f32, Vector1, "Vector1", (0));
+        one!(f64, Vector1, "Vector1", (0));
+        one!(f32, V2, "Vector2", (0, 1));
+        one!(f64, V2, "Vector2", (0, 1));
+        one!(f32, Vector3, "Vector3", (0, 1, 2));
+        one!(f64, Vector3, "Vector3", (0, 1, 2));
+        one!(f32, Vector4, "Vector4", (0, 1, 2, 3));
+        one!(f64, Vector4, "Vector4", (0, 1, 2, 3));
+        one!(f32, Quaternion, "Quaternion", (0, 1, 2, 3));
+        one!(f64, Quaternion, "Quaternion", (0, 1, 2, 3));
+        if acc.failed() {
+            break;
+        }
+    }
+    acc.finish(extra, "bit equality of method-syntax and trait-path spellings on concrete f32/f64 types; unit length within 64 eps");
+}
+
 pub fn native_all(cfg: &cgv_core::fw::RunCfg, extra: &mut cgv_core::fw::Extra) {
     native(cfg, extra);
     native_scaled(cfg, extra);
+    native_spellings(cfg, extra);
 }
 
 pub const RULE: &str = "pairs (u,v) of dimension 1-4 (and quaternions, points): class 0 has rational lengths everywhere (u = k*unit rational point, v = u + such a vector) so that the exact engine decides every square root; class 1 arbitrary small rationals decided by enclosures; 2-D signed angle: v = k*Rot(theta)*u built by the model for theta on a 2^-20 grid in (-pi,pi) plus special values; normalize_to uses positive and negative magnitudes. Non-trivial = u with non-zero pairwise distinct components; distinct = distinct input tuples.";
